@@ -567,7 +567,11 @@ func (sc *metaScn) c05Replay() {
 				sc.wit(nil, map[string]any{"notifications": seen}))
 		}
 	}
-	// (d2) only when the owner stayed attached and owner throughout
+	// (d2) only in the scenarios where the owner stays attached, does nothing and remains the owner throughout
+	// (its session then sees every change made by the others)
+	if !sc.quietOwner {
+		return
+	}
 	own := sc.actor("owner")
 	for _, st := range sc.steps {
 		if st.Kind == "reload" || (st.Actor == "owner" && (st.Kind == "leave" || st.Kind == "sub")) {
